@@ -427,6 +427,47 @@ def compose(rng, base, negative=None):
     return ss, desc, count
 
 
+def add_offline_devices(rng, ss):
+    """Out-of-service dynamic devices attached to in-service static ones: they must be inert - the static generator or load
+    stays what the power flow solved.  Default parameters (the device is off); returns the descriptions."""
+    desc = []
+    kinds = ["ZIP", "FLoad", "PVD1", "ESD1", "ZIP", "FLoad", "PVD1", "REGCA1", "REGCP1", "REGCV1", "REGF1"]
+    for _ in range(int(rng.integers(1, 4))):
+        k = kinds[int(rng.integers(0, len(kinds)))]
+        if k in ("ZIP", "FLoad"):
+            if not ss.PQ.n:
+                continue
+            j = int(rng.integers(0, ss.PQ.n))
+            row = dict(u=0, pq=ss.PQ.idx.v[j], bus=ss.PQ.bus.v[j])
+            if k == "ZIP":
+                row.update(kpp=20.0, kpi=30.0, kpz=50.0, kqp=20.0, kqi=30.0, kqz=50.0)
+        else:
+            G = ss.PV if ss.PV.n else ss.Slack
+            j = int(rng.integers(0, G.n))
+            row = dict(u=0, bus=G.bus.v[j], gen=G.idx.v[j], Sn=100.0)
+            if k in ("PVD1", "ESD1"):
+                row["pqflag"] = 1
+        try:
+            ss.add(k, row)
+            desc.append("%s(u=0)@%s" % (k, row.get("pq", row.get("gen"))))
+        except Exception:
+            continue
+    return desc
+
+
+def status_blind_offline(ss):
+    """Models with an out-of-service device whose differential / algebraic equation strings never mention the status ``u``."""
+    import re
+    out = []
+    for mname, m in ss.exist.tds.items():
+        if m.n == 0 or "u" not in m.params or not np.any(np.array(m.u.v) == 0):
+            continue
+        strs = [v.e_str for v in m.cache.all_vars.values() if getattr(v, "e_str", None)]
+        if strs and not any(re.search(r"(?<![A-Za-z0-9_])u(?![A-Za-z0-9_])", e) for e in strs):
+            out.append(mname)
+    return out
+
+
 def open_limits(ss):
     """Limiter bounds that are plain input parameters are moved far out (before set-up): the composed operating point then lies
     inside all limiter ranges, which is the property's precondition (rows harvested from stock cases bring limits tuned for the
@@ -451,6 +492,11 @@ def run_composed(spec, res):
     rng = rng_for(spec.get("seed", 0), PROPERTY, 1, spec["index"])
     base = ["kundur/kundur_full.xlsx", "ieee14/ieee14_full.xlsx", "ieee39/ieee39_full.xlsx", "wscc9/wscc9.xlsx", "5bus/pjm5bus.xlsx"][int(rng.integers(0, 5))]
     ss, desc, count = compose(rng, base)
+    rng2 = rng_for(spec.get("seed", 0), PROPERTY, 7, spec["index"])
+    if rng2.random() < 0.5:
+        off = add_offline_devices(rng2, ss)
+        desc = off + desc
+        res.count("offline_dynamic_devices_on_live_static_ones", len(off))
     if spec["index"] % 4 != 3:
         res.count("limiter_bounds_opened", open_limits(ss))
         desc = ["limits opened"] + desc
@@ -479,6 +525,11 @@ def run_composed(spec, res):
         # exciter initialisation has no place for
         mech = "init_failed_on_consistent_data"
         wn = str(out.get("worst_name"))
+        blind = status_blind_offline(ss)
+        if blind:
+            # mechanism predicate: an out-of-service device of a model whose equations never refer to the status flag
+            mech = "offline_device_equations_ignore_status"
+            tag = "%s [out of service, equations without u: %s]" % (tag, blind)
         if wn.startswith(("Vss IEEEST", "vsout IEEEST")) and ss.IEEEST.n:
             I = ss.IEEEST
             if any(I.T5.v[k] == 0 and int(I.MODE.v[k]) in (3, 5) and I.u.v[k] != 0 for k in range(I.n)):
